@@ -285,6 +285,76 @@ def sign_rule(model, res):
     return n
 
 
+def overspend_rule(model, res):
+    """No over-spend, derived (not sampled): for every arm of get_liquidity the amounts that get_amounts attributes to
+    the minted liquidity never exceed the offered amounts.  Derivation by monotone rewriting (rules/sign.py): the used
+    amount is non-decreasing in the liquidity (exact sign of d used / d L under the arm's guards); an upper bound U >= L
+    is obtained by opening the roundings in which L is non-decreasing (floor(e) -> e, int(e) -> e for e >= 0,
+    min of rounded candidates -> each candidate); substituting U into the used amount gives exactly the offered amount
+    (identity of rational forms) or something provably <= it.  The two functions' arms are matched by their guards."""
+    from ..norm import Rat
+    from ..rules.sign import Facts, derivative, nonneg, nonpos, sign_of, subst, upper_bounds
+    from ..vn import Evaluator, Raise, Unreadable, simplify_under
+    fl = model.func("uniswap.liquitidy_math.get_liquidity")
+    fa_ = model.func("uniswap.liquitidy_math.get_amounts")
+    try:
+        pl = Evaluator(model, opaque_funcs=["get_sqrt_ratio_at_tick"])._function_paths_ctx(fl, {}, None, 0, None)
+        pa = Evaluator(model, opaque_funcs=["get_sqrt_ratio_at_tick"])._function_paths_ctx(fa_, {}, None, 0, None)
+    except Unreadable as e:
+        raise AnalysisError(f"C07: get_liquidity / get_amounts outside the evaluator's language ({e})")
+    L = ("sym", fa_.params[3])
+    offered = [("sym", fl.params[3]), ("sym", fl.params[4])]
+    n = 0
+    undecided = []
+    for conds, val in pl:
+        if isinstance(val, Raise) or not isinstance(val, Rat):
+            continue
+        lv = simplify_under(val, conds)
+        match = [v for c, v in pa if frozenset(c) == frozenset(conds) and not isinstance(v, Raise) and hasattr(v, "items")]
+        if not match:
+            undecided.append("arm of get_liquidity without a get_amounts arm under the same guards")
+            continue
+        amts = [simplify_under(a, conds) for a in match[0].items]
+
+        def facts_of():
+            f = Facts()
+            f.add_guards(conds)
+            return f
+
+        ubs = upper_bounds(lv, facts_of, offered)
+        for i, (amt, off) in enumerate(zip(amts, offered)):
+            arm = sorted(map(repr, conds))[0][:50]
+            mono = sign_of(derivative(amt, L), facts_of(), [])
+            verdict = None
+            if nonneg(mono) and ubs:
+                for u in ubs:
+                    diff = subst(amt, {L: u}) - Rat.atom(off)
+                    if diff.n.is_zero():
+                        verdict = "== offered"
+                        break
+                    sg = sign_of(diff, facts_of(), [off])
+                    if nonpos(sg):
+                        verdict = "<= offered"
+                        break
+                    if sg in ("+",):
+                        verdict = verdict or "EXCEEDS"
+            if verdict is None:
+                undecided.append(f"used amount{i} vs offered in arm {arm}")
+                continue
+            n += 1
+            ok = verdict != "EXCEEDS"
+            res.ob("R-SIGN", f"get_liquidity arm {arm}...: used amount{i} at the real-valued bound of the minted liquidity {verdict}",
+                   fl.loc(), ok=ok)
+            if not ok:
+                res.find("R-SIGN", fl.qualname, f"minted liquidity can require more than the offered amount{i}", fl.loc(),
+                         f"get_liquidity: in the arm guarded by {sorted(map(repr, conds))[:2]} the amount{i} that get_amounts attributes "
+                         f"to the minted liquidity, evaluated at the upper bound obtained by dropping the roundings, exceeds the offered "
+                         f"amount{i} (exact sign of the difference is positive): over-spend")
+    if undecided:
+        res.notes.append("over-spend derivation could not settle: " + "; ".join(sorted(set(undecided))))
+    return n
+
+
 def run(model, tier="quick"):
     res = Result("C07", EXPLANATION)
     res.rules = ["R-FORMULA", "R-SIB", "R-SIGN", "R-PAIR"]
@@ -303,6 +373,7 @@ def run(model, tier="quick"):
                   "add: default price from the status price; wallet debited by the USED amounts; position keyed by the ticks", fx, opaque=oq)
     res.assumptions = ["get_sqrt_ratio_at_tick is TickMath (C06)"]
     res.floor("sign_and_monotonicity_clauses", sign_rule(model, res), 14)
+    res.floor("no_overspend_clauses", overspend_rule(model, res), 6)
     res.not_decided = ["maximality bound of the minted liquidity as an inequality over the domain (integer floors)",
                        "1e-30 relative agreement (Decimal precision)"]
     return res
